@@ -86,6 +86,9 @@ type appMsg struct {
 	Gas   uint64    `json:"gas,omitempty"`
 	Trait []string  `json:"trait,omitempty"`
 	Drop  bool      `json:"drop,omitempty"` // extinfo: leave this chain out
+	// Mixed (extinfo): only chain `Chain` gets the new address (key salt Data) and keeps the genesis traits; the other
+	// chains keep the genesis address and get the traits Trait — two different kinds of change of one validator
+	Mixed bool `json:"mixed,omitempty"`
 }
 
 type appTx struct {
@@ -555,8 +558,16 @@ func (w *appWorld) execMsg(ctx sdk.Context, m appMsg) (obs string, err error) {
 			if m.Drop && c == m.Chain%g.NChains {
 				continue
 			}
-			infos = append(infos, &valsettypes.ExternalChainInfo{ChainType: "evm", ChainReferenceID: appChains[c], Address: remoteAddr(v, c, m.Data),
-				Pubkey: remotePub(v, c, m.Data), Traits: m.Trait})
+			salt, traits := m.Data, m.Trait
+			if m.Mixed {
+				if c == m.Chain%g.NChains {
+					traits = g.Traits[v]
+				} else {
+					salt = ""
+				}
+			}
+			infos = append(infos, &valsettypes.ExternalChainInfo{ChainType: "evm", ChainReferenceID: appChains[c], Address: remoteAddr(v, c, salt),
+				Pubkey: remotePub(v, c, salt), Traits: traits})
 		}
 		_, err = w.valsetMS.AddExternalChainInfoForValidator(ctx, &valsettypes.MsgAddExternalChainInfoForValidator{ChainInfos: infos, Metadata: w.meta(v)})
 	case "fee":
@@ -627,6 +638,48 @@ func (w *appWorld) execMsg(ctx sdk.Context, m appMsg) (obs string, err error) {
 		_, err = w.consMS.AddMessagesSignatures(ctx, &consensustypes.MsgAddMessagesSignatures{Metadata: w.meta(v),
 			SignedMessages: []*consensustypes.ConsensusMessageSignature{{Id: id, QueueTypeName: q, Signature: sig, SignedByAddress: remoteAddr(v, m.Chain%g.NChains, m.Data)}}})
 		obs = fmt.Sprintf("id=%d", id)
+	case "signmulti":
+		// ONE MsgAddMessagesSignatures with signatures for several queues: the newest turnstone message of chain `Chain`
+		// (good signature), the newest turnstone message of the next chain (Level&1: corrupted signature), and (Level&2) a
+		// message id that does not exist in the validator-balances queue.  With a single chain the second entry is left out.
+		var sms []*consensustypes.ConsensusMessageSignature
+		signFor := func(c int, corrupt bool) error {
+			mm := m
+			mm.Chain, mm.Msg = c, -1
+			q, id := w.target(ctx, mm)
+			var sig []byte
+			for _, qm := range w.queuedOf(ctx, appChains[c]) {
+				if qm.queue == q && qm.msg.GetId() == id {
+					bz, berr := qm.msg.GetBytesToSign(f.Codec)
+					if berr != nil {
+						return berr
+					}
+					var serr error
+					if sig, serr = crypto.Sign(crypto.Keccak256(append([]byte(evmkeeper.SignaturePrefix), bz...)), ethKey(v, c, "")); serr != nil {
+						return serr
+					}
+				}
+			}
+			if corrupt && len(sig) > 0 {
+				sig[0] ^= 0xff
+			}
+			sms = append(sms, &consensustypes.ConsensusMessageSignature{Id: id, QueueTypeName: q, Signature: sig, SignedByAddress: remoteAddr(v, c, "")})
+			return nil
+		}
+		c0 := m.Chain % g.NChains
+		if err = signFor(c0, false); err != nil {
+			return "", err
+		}
+		if g.NChains > 1 {
+			if err = signFor((c0+1)%g.NChains, m.Level&1 != 0); err != nil {
+				return "", err
+			}
+		}
+		if m.Level&2 != 0 {
+			sms = append(sms, &consensustypes.ConsensusMessageSignature{Id: 987654, QueueTypeName: queueNames(appChains[c0])[1], Signature: []byte{1, 2, 3}, SignedByAddress: remoteAddr(v, c0, "")})
+		}
+		_, err = w.consMS.AddMessagesSignatures(ctx, &consensustypes.MsgAddMessagesSignatures{Metadata: w.meta(v), SignedMessages: sms})
+		obs = fmt.Sprintf("n=%d", len(sms))
 	case "estimate":
 		q, id := w.target(ctx, m)
 		_, err = w.consMS.AddMessageEstimates(ctx, &consensustypes.MsgAddMessageGasEstimates{Metadata: w.meta(v),
@@ -814,6 +867,9 @@ func (w *appWorld) runBlock(i int, b appBlock, extra, restart bool) blockOut {
 			// the same transaction simulated first (CheckTx / simulate); repeated executions on branches of the
 			// same state must agree with each other and with the delivery
 			sim, sevs := w.runTx(ctx, tx, false)
+			if sim2, sevs2 := w.runTx(ctx, tx, false); sim2 != sim || eventsDigest(sevs2) != eventsDigest(sevs) {
+				out.Unstable = fmt.Sprintf("tx: simulated %q / %s, simulated again %q / %s", sim, eventsDigest(sevs), sim2, eventsDigest(sevs2))
+			}
 			if tx.SimOnly {
 				out.Tx = append(out.Tx, "-")
 				continue
